@@ -166,6 +166,42 @@ pub fn check_is_match(prop: &str, case: &AstCase, ctx: &mut Ctx) -> Verdict {
     Verdict::Pass
 }
 
+/// thorough tier: coverage-guided search over pattern ASTs with the R1 oracle inside the libFuzzer target `lang`;
+/// every artifact is decoded by the same function the target uses and re-judged by `judge` through a worker
+pub fn lang_campaign(name: &'static str, ctx: &mut Ctx, judge: &dyn Fn(&AstCase, &mut Ctx) -> Verdict) -> Vec<(String, Verdict, Option<AstCase>)> {
+    if ctx.tier != Tier::Thorough {
+        return vec![];
+    }
+    let seed = std::env::var("VERIF_SEED").ok().and_then(|s| s.parse().ok()).unwrap_or(0u64);
+    let c = crate::fuzzrun::Campaign { name, target: "lang", hooks: true, runs_per_job: 300_000, jobs: 12, timeout_s: 25, seed: seed + 101 + name.bytes().map(|b| b as u64).sum::<u64>() };
+    match crate::fuzzrun::run_raw(&c, &[], 64) {
+        Err(e) => {
+            eprintln!("harness error: fuzz campaign: {e}");
+            std::process::exit(2)
+        }
+        Ok((found, execs)) => {
+            ctx.obs.label(&format!("libfuzzer:executions={execs}"));
+            ctx.obs.label(&format!("libfuzzer:artifacts={}", found.len()));
+            ctx.obs.eval(execs);
+            for (kind, bytes) in found {
+                let Some(t) = crate::fuzz_ast::decode(&bytes) else { continue };
+                let case = AstCase { node: t.node, flags: t.flags, inputs: Inputs::Lit(t.inputs) };
+                match judge(&case, ctx) {
+                    Verdict::Fail(fl) => {
+                        return vec![(format!("libfuzzer-{kind}"), Verdict::Fail(Failure { detail: format!("{} (candidate found by libFuzzer, re-judged through the worker)", fl.detail), ..fl }), Some(case))];
+                    }
+                    Verdict::Known(_) => ctx.obs.label("libfuzzer:artifact-is-known-finding"),
+                    _ => {
+                        println!("note: libFuzzer artifact ({kind}) did not fail when re-judged through the worker: {}", case.describe(Dialect::XPath, &[]));
+                        ctx.obs.label(&format!("libfuzzer:artifact-not-confirmed:{kind}"));
+                    }
+                }
+            }
+            vec![]
+        }
+    }
+}
+
 impl Prop for C01 {
     type Case = AstCase;
     fn id(&self) -> &'static str {
@@ -205,6 +241,9 @@ impl Prop for C01 {
             flagsets.clone().into_iter().map(move |f| AstCase { node: node.clone(), flags: f, inputs: Inputs::Lit(inputs.clone()) })
         });
         vec![("exhaustive-small".into(), scope, Box::new(it)), macro_enumeration(tier)]
+    }
+    fn extra(&self, ctx: &mut Ctx) -> Vec<(String, Verdict, Option<AstCase>)> {
+        lang_campaign("C01", ctx, &|case, ctx| check_is_match("C01", case, ctx))
     }
     fn check(&self, case: &AstCase, ctx: &mut Ctx) -> Verdict {
         check_is_match("C01", case, ctx)
